@@ -262,6 +262,7 @@ pub fn run(ctx: &mut Ctx) {
         }
         let mut cfg = GenCfg::default();
         cfg.nested_phantom = case % 4 == 1;
+        cfg.compact_unit = case % 4 == 2;
         cfg.allow_alias = case % 3 == 0;
         cfg.p_assoc = if case % 5 == 2 { 0.6 } else { 0.15 };
         cfg.hostile_names = case % 7 == 3;
